@@ -6,6 +6,21 @@ from decimal import Decimal
 from . import sk, fakenet, indep, netmsg
 
 
+def new_miner_watcher(mining):
+    """A MinerWatcher built by its own constructor (so that every attribute the tree initialises there exists), with an empty command
+    line; falls back to bare allocation if the constructor does more than parse arguments."""
+    import sys
+    argv = sys.argv
+    sys.argv = ["skepticoin-mine", "--quiet"]
+    try:
+        try:
+            return mining.MinerWatcher()
+        except BaseException:
+            return mining.MinerWatcher.__new__(mining.MinerWatcher)
+    finally:
+        sys.argv = argv
+
+
 class NodeRun:
     def __init__(self, world, genesis, peers=("p", "q", "r"), clock0=1000, tid=1):
         self.w = world
@@ -90,7 +105,7 @@ class NodeRun:
         from skepticoin.wallet import Wallet
         mining.time = self.clock
         keys = self.w.keys
-        mw = mining.MinerWatcher.__new__(mining.MinerWatcher)
+        mw = new_miner_watcher(mining)
         wal = Wallet.empty()
         for k in sorted(keys.pub):
             wal.keypairs[keys.pub[k]] = keys.sk[k].to_string()
